@@ -116,8 +116,8 @@ func obsDigest(o *h.Obs) string {
 func evalC06(c C06Case) *h.Finding {
 	o, _, in := c06Run(c, c.N)
 	desc := fmt.Sprintf("kind=%s mode=%s N=%d m=%d dots=%t chunks=%v buf=%d peroctet=%t size=%d", c.Kind, c.Mode, c.N, c.M, c.Dots, c.Chunks, c.Buf, c.PerOct, c.Size)
-	if o.Panic != "" {
-		return h.F("c06-panic", "%s: handler panicked: %s", desc, o.Panic)
+	if f := o.Sanity("c06", desc); f != nil {
+		return f
 	}
 	if o.ParseErr != nil {
 		return h.F("c06-bad-wire", "%s: %v", desc, o.ParseErr)
